@@ -12,10 +12,16 @@ Record machine := {
   m_trans : list (string * list nat * nat)            (* name, allowed sources, destination — in table order *)
 }.
 
-Inductive evt := Enter (s : nat) | Leave (s : nat) | Called (t : string).
+(* every event has a second, later-registered callback that only records: PostX is logged after the
+   callbacks that make requests have returned (it is skipped when they raise) *)
+Inductive evt := Enter (s : nat) | Leave (s : nat) | Called (t : string)
+              | PostEnter (s : nat) | PostLeave (s : nat) | PostCalled (t : string).
+Definition post_of (e : evt) : evt :=
+  match e with Enter s => PostEnter s | Leave s => PostLeave s | Called t => PostCalled t | x => x end.
 Definition handlers := evt -> list string.            (* transition names requested by the callbacks of an event *)
 
-Record sm := { cur : nat; active : list bool; log : list evt }.
+(* spent: the one-shot handlers that have already made their requests *)
+Record sm := { cur : nat; active : list bool; log : list evt; spent : list evt }.
 
 Definition parent_of (m : machine) (s : nat) : option nat := nth s (m_parent m) None.
 Definition nstates (m : machine) : nat := length (m_parent m).
@@ -42,9 +48,16 @@ Definition find_trans (m : machine) (name : string) : option (list nat * nat) :=
   | None => None
   end.
 
-Definition with_log (st : sm) (e : evt) : sm := {| cur := cur st; active := active st; log := log st ++ [e] |}.
-Definition with_active (st : sm) (s : nat) (b : bool) : sm := {| cur := cur st; active := set_nth s b (active st); log := log st |}.
-Definition with_cur (st : sm) (s : nat) : sm := {| cur := s; active := active st; log := log st |}.
+Definition with_log (st : sm) (e : evt) : sm := {| cur := cur st; active := active st; log := log st ++ [e]; spent := spent st |}.
+Definition with_active (st : sm) (s : nat) (b : bool) : sm := {| cur := cur st; active := set_nth s b (active st); log := log st; spent := spent st |}.
+Definition with_cur (st : sm) (s : nat) : sm := {| cur := s; active := active st; log := log st; spent := spent st |}.
+Definition with_spent (st : sm) (e : evt) : sm := {| cur := cur st; active := active st; log := log st; spent := e :: spent st |}.
+Definition evt_same (a b : evt) : bool :=
+  match a, b with
+  | Enter x, Enter y | Leave x, Leave y | PostEnter x, PostEnter y | PostLeave x, PostLeave y => x =? y
+  | Called x, Called y | PostCalled x, PostCalled y => String.eqb x y
+  | _, _ => false
+  end.
 
 (* result: state reached, and whether an exception is propagating *)
 Definition outcome := (sm * bool)%type.
@@ -52,6 +65,7 @@ Definition outcome := (sm * bool)%type.
 Section engine.
   Variable m : machine.
   Variable h : handlers.
+  Variable one_shot : evt -> bool.          (* handlers that make their requests only the first time *)
 
   (* run the requests of an event's callbacks one after the other; stop at the first exception *)
   Fixpoint run_requests (perform : sm -> string -> outcome) (st : sm) (names : list string) : outcome :=
@@ -61,7 +75,11 @@ Section engine.
     end.
 
   Definition fire (perform : sm -> string -> outcome) (st : sm) (e : evt) : outcome :=
-    run_requests perform (with_log st e) (h e).
+    let st0 := with_log st e in
+    let '(st0', names) := if one_shot e then (if existsb (evt_same e) (spent st0) then (st0, []) else (with_spent st0 e, h e))
+                          else (st0, h e) in
+    let '(st1, raised) := run_requests perform st0' names in
+    if raised then (st1, true) else (with_log st1 (post_of e), false).
 
   (* State.leave(destination) for state s, walking up while the destination is outside the parent *)
   Fixpoint leave_chain (perform : sm -> string -> outcome) (fuel : nat) (st : sm) (s dst : nat) : outcome :=
@@ -112,11 +130,12 @@ Section engine.
 End engine.
 
 Definition no_handlers : handlers := fun _ => [].
+Definition never_one_shot : evt -> bool := fun _ => false.
 
 (* a sequence of top-level requests; each one that raises is caught by the caller *)
-Fixpoint run_seq (m : machine) (h : handlers) (fuel : nat) (st : sm) (names : list string) : sm * list bool :=
+Fixpoint run_seq (m : machine) (h : handlers) (os : evt -> bool) (fuel : nat) (st : sm) (names : list string) : sm * list bool :=
   match names with
   | [] => (st, [])
-  | n :: r => let '(st1, raised) := perform m h fuel st n in
-              let '(st2, rs) := run_seq m h fuel st1 r in (st2, raised :: rs)
+  | n :: r => let '(st1, raised) := perform m h os fuel st n in
+              let '(st2, rs) := run_seq m h os fuel st1 r in (st2, raised :: rs)
   end.
